@@ -50,6 +50,9 @@ class DriftCorrection(darsia.BaseCorrection):
         elif isinstance(base, np.ndarray):
             self.base = np.copy(base)
 
+        else:
+            self.base = None
+
         # Establish config
         if config is None:
             config = {}
@@ -120,7 +123,8 @@ class DriftCorrection(darsia.BaseCorrection):
 
     def load(self, path) -> None:
         """Load the drift correction from a file."""
-        self.base = np.load(path, allow_pickle=True)["base"]
+        base = np.load(path, allow_pickle=True)["base"]
+        self.base = None if base.dtype == object and base.ndim == 0 else base
         config = np.load(path, allow_pickle=True)["config"].item()
         self._init_from_config(config)
 
